@@ -30,6 +30,11 @@ def run(chk, replay=None):
             for after in ("quiet", "other-topic"):
                 for between in (False, True):
                     scen += 1; fam.append(pslib.c12_withheld_script(t, scen, k, after, between))
+    # a publisher in a tight loop under a runtime's cooperative budget (its writes are refused once the budget is spent, the
+    # flusher tasks cannot run while it keeps the thread): the connections take everything they are offered, so everything arrives
+    for t in ("PUB", "XPUB"):
+        for k, size, n in ((3, 1000, 300), (8, 4000, 120), (2, 100, 400)):
+            scen += 1; fam.append(pslib.c12_budget_script(t, scen, k, size, n))
     for s in fam: chk.case((s["sock"], json.dumps(s["ops"])[:3000]), nontrivial=any(o["op"] == "credit" and o.get("k") is not None for o in s["ops"]))
     chk.sample({"kind": "back-pressure schedule", "sock": fam[0]["sock"], "ops": [(o["op"], o.get("c"), o.get("k")) for o in fam[0]["ops"]][:24]})
     pslib.run_and_report(chk, fam, "c12", ("C12/",))
